@@ -19,6 +19,8 @@ type qeInput struct {
 	SvcStrict bool       `json:"svc_strict"`
 	GrpStrict bool       `json:"grp_strict"`
 	Cluster   [][]string `json:"cluster,omitempty"` // C18: backend ids per node, the request goes to node 0
+	SvcAuth   string     `json:"svc_auth,omitempty"` // raw ServiceAuthorization option text (overrides SvcStrict when set)
+	GrpAuth   string     `json:"grp_auth,omitempty"` // raw GroupAuthorization option text
 }
 
 type qeProfile struct {
@@ -42,7 +44,7 @@ var qeProfiles = map[string]*qeProfile{
 		rule: "generated datasets (1-3 backends, overlapping mixed-case/dotted/non-ASCII names, lists, ids beyond 8 bit, optional columns per flavour) x generated GET requests with filter trees (every operator x column type, And/Or/Negate nesting up to depth 4). non-trivial: the filter selects a proper, non-empty subset of the rows or uses a group/negation; distinct by request text+dataset"},
 	"c05": {name: "c05", pGrouped: 45, pFilter: 50, pStats: 100, pSort: 0, pLimit: 0, pAuth: 10, pBackends: 10, pWrapped: 10, maxDepth: 2, maxBackends: 4, maxHosts: 8, perDataset: 12, tables: []string{"hosts", "services", "services", "comments", "hostgroups"},
 		rule: "generated Stats programs (1-4 counters/aggregates, nested StatsAnd/StatsOr/StatsNegate, optional group-by Columns) over 1-4 backends"},
-	"c06": {name: "c06", pFilter: 40, pStats: 0, pSort: 80, pLimit: 90, pAuth: 0, pBackends: 10, pWrapped: 50, maxDepth: 1, maxBackends: 4, maxHosts: 8, perDataset: 12, tables: []string{"hosts", "hosts", "services", "services", "comments", "hostgroups", "contacts"},
+	"c06": {name: "c06", pIndexLeaf: 40, pFilter: 40, pStats: 0, pSort: 80, pLimit: 90, pAuth: 0, pBackends: 10, pWrapped: 50, maxDepth: 1, maxBackends: 4, maxHosts: 8, perDataset: 12, tables: []string{"hosts", "hosts", "services", "services", "comments", "hostgroups", "contacts"},
 		rule: "generated Sort (0-3 keys asc/desc incl. custom variables and keys outside Columns, default order), Limit, Offset combinations over 1-4 backends with interleaving names, json and wrapped_json"},
 	"c07": {name: "c07", pIndexLeaf: 50, pGrouped: 50, pFilter: 100, pStats: 30, pSort: 10, pLimit: 10, pAuth: 0, pBackends: 0, pWrapped: 20, maxDepth: 3, maxBackends: 2, maxHosts: 8, perDataset: 10, tables: []string{"hosts", "hosts", "services", "services", "services", "comments", "hostgroups", "contacts"}, bothModes: true,
 		rule: "every generated request text is parsed in both modes (ParseDefault, ParseOptimize) and evaluated on the same store; indexable shapes (name/host_name/groups/host_groups/primary key with = =~ ~ ~~) mixed with other terms, regexes with leading/trailing .* and ^...$"},
@@ -133,6 +135,16 @@ func qeRunInputs(inputs []*qeInput, flags *verifStreamFlags, meta *vMeta, roundt
 		if in.GrpStrict {
 			lmd.Config.GroupAuthorization = AuthStrict
 		}
+		cfgTerm := fmt.Sprintf("(mkCfg %s %s)", coqBool(in.SvcStrict), coqBool(in.GrpStrict))
+		if in.SvcAuth != "" || in.GrpAuth != "" {
+			// through the real option normalisation, as the configuration file reader does
+			lmd.Config.ServiceAuthorization = strings.TrimPrefix(in.SvcAuth, "=")
+			lmd.Config.GroupAuthorization = strings.TrimPrefix(in.GrpAuth, "=")
+			lmd.Config.SetServiceAuthorization()
+			lmd.Config.SetGroupAuthorization()
+			cfgTerm = fmt.Sprintf("(mkCfg (parse_auth false %s) (parse_auth true %s))",
+				coqStr(strings.TrimPrefix(in.SvcAuth, "=")), coqStr(strings.TrimPrefix(in.GrpAuth, "=")))
+		}
 		text := strings.Join(in.Lines, "\n") + "\n\n"
 		var obs *qeObs
 		if len(in.Cluster) > 0 {
@@ -154,10 +166,10 @@ func qeRunInputs(inputs []*qeInput, flags *verifStreamFlags, meta *vMeta, roundt
 			for _, l := range strings.Split(strings.TrimRight(rtText, "\n"), "\n") {
 				rtLines = append(rtLines, coqStr(l))
 			}
-			fmt.Fprintf(&sb, "Definition c%d : rcase := mkR (mkQ (mkCfg %s %s) %s %s %s\n  (%s))\n  %s\n  (%s).\n", i, coqBool(in.SvcStrict), coqBool(in.GrpStrict),
+			fmt.Fprintf(&sb, "Definition c%d : rcase := mkR (mkQ %s %s %s %s\n  (%s))\n  %s\n  (%s).\n", i, cfgTerm,
 				dsName, coqBool(in.Optimize), coqList(lines), obs.coq(), coqList(rtLines), rtObs.coq())
 		} else {
-			fmt.Fprintf(&sb, "Definition c%d : qcase := mkQ (mkCfg %s %s) %s %s %s\n  (%s).\n", i, coqBool(in.SvcStrict), coqBool(in.GrpStrict),
+			fmt.Fprintf(&sb, "Definition c%d : qcase := mkQ %s %s %s %s\n  (%s).\n", i, cfgTerm,
 				dsName, coqBool(in.Optimize), coqList(lines), obs.coq())
 		}
 		names = append(names, fmt.Sprintf("c%d", i))
@@ -239,8 +251,14 @@ func qeMain(args []string) int {
 			gen := &qeGen{r: rnd.fork(), ds: ds, pFilter: prof.pFilter, pStats: prof.pStats, pSort: prof.pSort, pLimit: prof.pLimit, pAuth: prof.pAuth,
 				pBackends: prof.pBackends, pWrapped: prof.pWrapped, pGrouped: prof.pGrouped, pIndexLeaf: prof.pIndexLeaf, maxDepth: prof.maxDepth, tables: prof.tables, hist: meta.Histogram}
 			svcStrict, grpStrict := false, true
+			svcAuth, grpAuth := "", ""
 			if prof.pAuth > 50 {
 				svcStrict, grpStrict = rnd.chance(1, 2), rnd.chance(1, 2)
+				if rnd.chance(1, 2) {
+					// option texts as an administrator may spell them ("=" marks an explicitly empty option)
+					svcAuth = vPick(rnd, []string{"strict", "Strict", "STRICT", "loose", "Loose", "=", "bogus"})
+					grpAuth = vPick(rnd, []string{"strict", "Strict", "loose", "LOOSE", "Loose", "=", "bogus"})
+				}
 			}
 			var assign [][]string
 			if prof.cluster {
@@ -257,7 +275,7 @@ func qeMain(args []string) int {
 				if prof.bothModes {
 					inputs = append(inputs, &qeInput{DS: ds, Lines: lines, Optimize: false, SvcStrict: svcStrict, GrpStrict: grpStrict})
 				}
-				inputs = append(inputs, &qeInput{DS: ds, Lines: lines, Optimize: true, SvcStrict: svcStrict, GrpStrict: grpStrict, Cluster: assign})
+				inputs = append(inputs, &qeInput{DS: ds, Lines: lines, Optimize: true, SvcStrict: svcStrict, GrpStrict: grpStrict, Cluster: assign, SvcAuth: svcAuth, GrpAuth: grpAuth})
 			}
 		}
 	}
